@@ -90,6 +90,7 @@ def install(eng):
     eng.builtin_hooks['dict.update'] = bi_dict_update
     eng.builtin_hooks['open'] = bi_open
     eng.builtin_hooks['getattr'] = bi_getattr
+    eng.with_hooks['pool'] = with_pool
     eng._products = {}
     eng._star_arg = None
     eng.attr_hooks[('module:Tags', '*')] = tags_module_attr
@@ -119,9 +120,36 @@ def ext_get_logger(eng, selfv, args, kwargs):
 
 
 def ext_random_new(eng, selfv, args, kwargs):
-    eng.used_assumption('random.Random(seed) is a fresh generator whose stream is a function of the seed only')
+    eng.used_assumption('random.Random(seed) is a fresh generator whose stream is a function of the seed only '
+                        '(seed None / no argument: OS entropy)')
     r = eng.alloc(ty.TRef('Random'))
+    f = z3.Function('rng_seed', I, I)
+    if args:
+        eng.fact(f(r.term) == eng.coerce(args[0], ty.ANY))
     return r
+
+
+def ext_global_random(name):
+    def h(eng, selfv, args, kwargs):
+        """random.choice / random.shuffle on the *global* generator: same value contract as the method, but the
+        effect check of C07 refuses it (receiver is not the model's generator)."""
+        return (ext_random_choice if name == 'choice' else ext_random_shuffle)(eng, None, args, kwargs)
+    return h
+
+
+def chk_rng_only_model_random(eng, env):
+    """C07 effect contract: every draw made by this function is made on self.model.random."""
+    selfv = env['self']
+    model = eng.read_field(selfv, 'model')
+    rng = eng.read_field(model, 'random')
+    for name, recv, args in eng.extlog:
+        if name.startswith('Random.'):
+            eng.oblige(f'effect:rng-receiver:{name}', recv.term == rng.term, kind='assert', props=['C07'])
+        elif name.startswith('random.') or name.startswith('numpy.random'):
+            eng.oblige(f'effect:rng-receiver:{name}', z3.BoolVal(False), kind='assert', props=['C07'])
+
+
+EFFECT_CHECKS = {'rng_only_model_random': chk_rng_only_model_random}
 
 
 def ext_random_choice(eng, selfv, args, kwargs):
@@ -470,9 +498,90 @@ def bi_getattr(eng, args, kwargs, node):
     return VRef(f(obj.term, name.term), ty.ANY)
 
 
+# ------------------------------------------------------------------ multiprocessing.Pool (assumed, C15 / C16)
+POOL = ('multiprocessing.Pool: imap(f, xs) yields f(x) for every x in order; imap_unordered(f, xs) yields each f(x) '
+        'exactly once in some order; an exception raised in a worker is re-raised at the iterator; `with Pool(..)` '
+        'only manages the workers (no schedule is explored)')
+
+
+def ext_pool_new(eng, selfv, args, kwargs):
+    eng.used_assumption(POOL)
+    p = eng.alloc(ty.TRef('Pool'))
+    p.ext_kind = 'pool'
+    return p
+
+
+def with_pool(eng, v, item, st):
+    if item.optional_vars is not None:
+        eng.assign(item.optional_vars, v)
+    eng.exec_block(st.body)
+
+
+def ext_pool_imap(unordered):
+    def h(eng, pool, args, kwargs):
+        """The worker calls happen 'elsewhere': modelled as one contract call of f per input (ghost run log), the
+        outputs handed over in order (imap) or permuted (imap_unordered)."""
+        eng.used_assumption(POOL)
+        f, xs = args
+        n = eng.llen(xs)
+        out = eng.alloc(ty.parse('list[any]'))
+        res = eng.arr(('g', 'run_res'))
+        argm = eng.arr(('g', 'run_arg'))
+        n0 = eng.arr(('g', 'n_runs'))
+        nres = eng.fresh('run_res', res.sort())
+        narg = eng.fresh('run_arg', argm.sort())
+        arr = eng.fresh('pool_out', z3.ArraySort(I, I))
+        j = z3.Int('pj')
+        eng.fact(z3.ForAll([j], z3.Implies(j < n0, z3.And(z3.Select(nres, j) == z3.Select(res, j),
+                                                           z3.Select(narg, j) == z3.Select(argm, j)))))
+        eng.fact(z3.ForAll([j], z3.Implies(z3.And(0 <= j, j < n),
+                                           z3.Select(narg, n0 + j) == z3.Select(eng.lel_arrays(xs)[0], j))))
+        if unordered:
+            eng.ctx.n += 1
+            perm = z3.Function(f'poolperm!{eng.ctx.n}', I, I)
+            inv = z3.Function(f'poolinv!{eng.ctx.n}', I, I)
+            eng.fact(z3.ForAll([j], z3.Implies(z3.And(0 <= j, j < n),
+                                               z3.And(0 <= perm(j), perm(j) < n, inv(perm(j)) == j,
+                                                      0 <= inv(j), inv(j) < n, perm(inv(j)) == j,
+                                                      z3.Select(arr, j) == z3.Select(nres, n0 + perm(j))))))
+        else:
+            eng.fact(z3.ForAll([j], z3.Implies(z3.And(0 <= j, j < n), z3.Select(arr, j) == z3.Select(nres, n0 + j))))
+        eng.S.h[('g', 'run_res')] = nres
+        eng.S.h[('g', 'run_arg')] = narg
+        eng.S.h[('g', 'n_runs')] = n0 + n
+        eng.list_set_all(out, n, [arr])
+        # every worker call satisfies the (view) contract of the mapped function
+        fn = f
+        pargs, pkw = [], {}
+        if isinstance(fn, VFunc) and fn.kind == 'partial':
+            pargs, pkw, fn = list(fn.args), dict(fn.kwargs), fn.func
+        if isinstance(fn, VFunc) and fn.kind == 'function':
+            c = eng.specs.lookup(fn.fi, eng.view)
+            if c is not None and c.ensures:
+                jj = z3.Int(f'pw!{eng.ctx.n}')
+                save_q, save_g = eng.qvars, eng.qguards
+                eng.qvars = list(save_q) + [jj]
+                eng.qguards = list(save_g) + [z3.And(0 <= jj, jj < n)]
+                try:
+                    x = eng.list_get(xs, jj)
+                    env = eng.bind_params(fn.fi.node, pargs + [x], dict(pkw), fn.fi.module)
+                    env['result'] = VRef(z3.Select(nres, n0 + jj), ty.ANY)
+                    for tag, preds in c.ensures.items():
+                        for pred in preds:
+                            names = set(a.arg for a in __import__('pyvc.specs', fromlist=['pred_ast']).pred_ast(pred).args.args)
+                            if names <= set(env):
+                                for label, term in eng.spec_terms(pred, env):
+                                    eng.fact(term)
+                finally:
+                    eng.qvars, eng.qguards = save_q, save_g
+        return out
+    return h
+
+
 def ext_any_call(eng, f, args, kwargs):
     eng.used_assumption('user-supplied callables (generators, score / agent functions) are pure functions of their arguments')
     terms = []
+    args = list(args) + ([kwargs['**']] if kwargs.get('**') is not None and hasattr(kwargs['**'], 'term') else [])
     for a in args:
         if isinstance(a, VTuple):
             terms.append(eng.box_tuple(a))
@@ -495,6 +604,8 @@ EXTERNALS = {
     'numpy.copy': ext_np_copy,
     'isinstance': ext_isinstance,
     'any.__call__': ext_any_call,
+    'multiprocessing.Pool': ext_pool_new,
+    'Pool.imap_unordered': ext_pool_imap(True), 'Pool.imap': ext_pool_imap(False),
     'itertools.product': ext_product,
     'File.write': ext_file_write, 'File.close': ext_file_close,
     'min': _ext_agg('min'), 'max': _ext_agg('max'), 'sum': _ext_agg('sum'),
@@ -505,6 +616,7 @@ EXTERNALS = {
     'any.__contains__': ext_any_contains,
     'any.decode': ext_any_decode,
     'sys.modules.__getitem__': ext_sys_modules,
+    'random.choice': ext_global_random('choice'), 'random.shuffle': ext_global_random('shuffle'),
     'Random.choice': ext_random_choice,
     'Random.shuffle': ext_random_shuffle,
     'Logger.info': ext_logger_noop,
@@ -612,7 +724,28 @@ def _group_reset(eng, env):
     pass
 
 
+def eff_batch_init(eng, env, pre):
+    eng.S.h[('g', 'n_runs')] = z3.IntVal(0)
+    eng.S.h[('g', 'n_built')] = z3.IntVal(0)
+
+
+def eff_run_logged(eng, env, pre):
+    """Ghost execution log of batch_run: one entry per _run_model_for_batch call (argument, result)."""
+    n = eng.arr(('g', 'n_runs'))
+    eng.S.h[('g', 'run_arg')] = z3.Store(eng.arr(('g', 'run_arg')), n, env['kwargs'].term)
+    r = env.get('result')
+    eng.S.h[('g', 'run_res')] = z3.Store(eng.arr(('g', 'run_res')), n, r.term if hasattr(r, 'term') else z3.IntVal(0))
+    eng.S.h[('g', 'n_runs')] = n + 1
+
+
+def eff_model_built(eng, env, pre):
+    eng.S.h[('g', 'n_built')] = eng.arr(('g', 'n_built')) + 1
+
+
 EFFECTS = {
+    'batch_init': eff_batch_init,
+    'run_logged': eff_run_logged,
+    'model_built': eff_model_built,
     'decode_init': eff_decode_init,
     'ev_pre_model': _set('pre_model', _flag('pre_model_done')),
     'ev_model': _set('model', _model_made),
